@@ -11,6 +11,11 @@ def run(ctx):
     n = 60 if ctx.quick() else 1500
     cases = ic.gen_line_curve(ctx, n) + ic.gen_planted(ctx, n) + ic.gen_shared_ends(ctx, n // 2)
     sweep(ctx, "geometric_reported_pairs_are_real", cases, [("Curve.intersect", ic.intersect_args("GEOMETRIC"))], ic.judge_c02)
+    # overlapping sub-arcs of one parent curve (coincident results): the reported end points of the shared arc must be genuine
+    # common points too (generator of C20; the judge here is genuineness and range only)
+    from checks import c20 as _c20
+    ov = _c20.gen_overlaps(ctx)
+    sweep(ctx, "coincident_results_are_genuine", ov, [("Curve.intersect", ic.intersect_args("GEOMETRIC"))], ic.judge_c02)
     # end point of one curve in the interior of the other: Newton lands a hair outside [0,1] in a fraction of a percent of the
     # cases, so this family is large (the compiled pipeline is fast; the pure one gets a tenth)
     ends = ic.gen_end_on_curve(ctx, 4000 if ctx.quick() else 60000)
